@@ -1960,6 +1960,10 @@ fn is_nontrivial(e: &Expect) -> bool {
     }
 }
 
+fn env_down(env: &Env, mode: Mode) -> bool {
+    env.down.get(&mode).map(|d| d.load(Ordering::SeqCst)).unwrap_or(false)
+}
+
 fn run_item(env: &Env, item: &Item) -> ItemResult {
     let mut res = ItemResult::default();
     if Instant::now() > env.deadline {
@@ -2376,6 +2380,65 @@ pub fn build_rig(modes: &[Mode]) -> Result<Rig, String> {
     })
 }
 
+/// Pipelined bursts: `rounds` x `n` datagrams sent from four sockets without waiting
+/// for anything.  Every datagram is 2..=11 octets long with QR clear (each is owed a
+/// FORMERR), or a valid query, alternating.  Replies are drained and counted but not
+/// judged (the kernel may drop datagrams of a burst on either side); what is judged
+/// afterwards is that the server still answers.  Returns (sent, replies seen).
+pub fn udp_bursts(addr: SocketAddr, rounds: usize, n: usize) -> (u64, u64) {
+    let mut sent = 0u64;
+    let mut seen = 0u64;
+    let valid = build_msg(0x4242, 0, &[q("www.c9.test.", 1, 1)], &[], None);
+    for round in 0..rounds {
+        let socks: Vec<UdpSocket> = (0..4)
+            .filter_map(|_| {
+                let s = UdpSocket::bind((Ipv4Addr::LOCALHOST, 0)).ok()?;
+                s.connect(addr).ok()?;
+                s.set_nonblocking(true).ok()?;
+                Some(s)
+            })
+            .collect();
+        if socks.is_empty() {
+            return (sent, seen);
+        }
+        let mut buf = [0u8; 1024];
+        for i in 0..n {
+            let s = &socks[i % socks.len()];
+            // round 0: runts only; later rounds: runts and valid queries mixed
+            let m: Vec<u8> = if round > 0 && i % 3 == 0 {
+                valid.clone()
+            } else {
+                let len = 2 + (i % 10);
+                let mut v = vec![0u8; len];
+                v[0] = 0x52;
+                v[1] = (i % 251) as u8;
+                v
+            };
+            if s.send(&m).is_ok() {
+                sent += 1;
+            }
+            while s.recv(&mut buf).is_ok() {
+                seen += 1;
+            }
+        }
+        // drain what is still coming
+        let until = Instant::now() + Duration::from_millis(300);
+        while Instant::now() < until {
+            let mut any = false;
+            for s in &socks {
+                while s.recv(&mut buf).is_ok() {
+                    seen += 1;
+                    any = true;
+                }
+            }
+            if !any {
+                std::thread::sleep(Duration::from_millis(10));
+            }
+        }
+    }
+    (sent, seen)
+}
+
 fn alive_and_answering(srv: &mut Server) -> Result<(), String> {
     if !srv.alive() {
         return Err(format!("process gone ({}); log tail {:?}", srv.exit_status(), srv.log.tail(6)));
@@ -2641,6 +2704,27 @@ pub fn run(ctx: &Ctx) -> i32 {
         report.extra.insert("cap".into(), json!(format!("wall-clock cap of {budget} s hit: {skipped} work items / cases skipped")));
     }
 
+    // pipelined bursts against the two main servers (only if still up), then liveness
+    let mut burst_stats = serde_json::Map::new();
+    for &mode in &modes {
+        let srv = rig.servers.get_mut(&mode).unwrap();
+        if env_down(&env, mode) || alive_and_answering(srv).is_err() {
+            continue;
+        }
+        let addr = srv.addr;
+        let (sent, seen) = udp_bursts(addr, 3, ctx.tier.pick(4000, 20000));
+        burst_stats.insert(mode.name().to_string(), json!({"datagrams_sent": sent, "replies_seen_not_judged": seen}));
+        if let Err(why) = alive_and_answering(rig.servers.get_mut(&mode).unwrap()) {
+            sink.push(Violation {
+                clause: "liveness".into(),
+                summary: format!("[{}] the server answered before, and no longer after, three pipelined bursts of runt datagrams and queries ({sent} datagrams): {why}", mode.name()),
+                replay: json!({"mode": mode.name(), "transport": "udp", "label": "pipelined bursts", "bursts": {"rounds": 3, "n": ctx.tier.pick(4000, 20000)}, "msgs": []}),
+                slug: None,
+            });
+        }
+    }
+    report.extra.insert("pipelined_bursts".into(), Value::Object(burst_stats));
+
     // liveness at the end (and the search for the killer if a server went down)
     let mut down: Vec<(Mode, String, Vec<(Transport, Vec<u8>)>)> = Vec::new();
     for &mode in &all_modes {
@@ -2758,6 +2842,11 @@ pub fn replay(_ctx: &Ctx, v: &Value) -> i32 {
             println!("  MISMATCH {c}: {t}");
             bad = true;
         }
+    } else if v["bursts"].is_object() {
+        let rounds = v["bursts"]["rounds"].as_u64().unwrap_or(3) as usize;
+        let n = v["bursts"]["n"].as_u64().unwrap_or(4000) as usize;
+        let (sent, seen) = udp_bursts(addr, rounds, n);
+        println!("  {rounds} bursts of {n} datagrams: {sent} sent, {seen} replies seen (not judged)");
     } else {
         let msgs: Vec<Vec<u8>> = v["msgs"].as_array().cloned().unwrap_or_default().iter().map(|s| unhex(s.as_str().unwrap_or(""))).collect();
         let expects: Vec<Expect> = msgs.iter().map(|m| reference(&rig.world, mode, m, false)).collect();
